@@ -4,7 +4,8 @@ _hr = {}
 def hr(v):
     r = _hr.get(v)
     if r is None:
-        r = _hr[v] = pow(3, v + 1048576, HQ)
+        t = v + 1048576
+        r = _hr[v] = ((((t * t) % HQ) * t) % HQ + 12345 * ((t * t) % HQ) + 6789 * t + 1) % HQ
     return r
 def hlc(p, items):
     acc = 0
